@@ -201,6 +201,107 @@ theorem resetTo_ok (hc : CfgOK cfg) (h : GeomInv cfg s) {cp : Checkpoint} (hcp :
     unfold curPos
     simp only [setPos_getElem?, hi, ↓reduceIte, Option.map_some]
 
+/-! ## reset_to by a handle with another minimum alignment (`scoped_aligned` exit) -/
+
+/-- move the position of chunk `i`, make it current, and switch to minimum alignment `m` -/
+theorem GeomInv.setPosCurMin (h : GeomInv cfg s) {m : Nat} (hm : MinAlignOK m) {i p : Nat} {c : Chunk}
+    (hi : s.chunks[i]? = some c) (h1 : c.contentStart cfg ≤ p) (h2 : p ≤ c.contentEnd cfg) (h3 : m ∣ p) :
+    GeomInv cfg { Arena.setPos { s with minAlign := m } i p with cur := .chunk i } := by
+  refine ⟨?_, hm, ?_⟩
+  · intro j d hj
+    have hj' : (Arena.setPos s i p).chunks[j]? = some d := hj
+    rw [setPos_getElem?] at hj'
+    split at hj'
+    · subst ‹i = j›
+      rw [hi] at hj'
+      simp only [Option.map_some, Option.some.injEq] at hj'
+      subst hj'
+      exact (h.chunks i c hi).withPos h1 h2
+    · exact h.chunks j d hj'
+  · intro j hj
+    simp only [Cur.chunk.injEq] at hj
+    subst hj
+    refine ⟨{ c with pos := p }, ?_, h3⟩
+    show (Arena.setPos s i p).chunks[i]? = _
+    rw [setPos_getElem?, if_pos rfl, hi]; rfl
+
+theorem resetToStart_inv_min (hc : CfgOK cfg) (h : GeomInv cfg s) {m : Nat} (hm : MinAlignOK m) :
+    GeomInv cfg (resetToStart cfg { s with minAlign := m }) := by
+  unfold resetToStart
+  cases hcur : s.cur with
+  | chunk i =>
+    simp only [hcur]
+    cases hch : s.chunks with
+    | nil =>
+      obtain ⟨c, hc', _⟩ := h.cur i hcur
+      rw [hch] at hc'; simp at hc'
+    | cons c rest =>
+      simp only
+      have hw : ChunkWF cfg c := h.chunks 0 c (by rw [hch]; rfl)
+      refine ⟨?_, hm, ?_⟩
+      · intro j d hj
+        cases j with
+        | zero =>
+          simp only [List.getElem?_cons_zero, Option.some.injEq] at hj
+          subst hj; exact hw.resetPos
+        | succ n =>
+          simp only [List.getElem?_cons_succ] at hj
+          exact h.chunks (n+1) d (by rw [hch]; simpa only [List.getElem?_cons_succ] using hj)
+      · intro j hj
+        simp only [Cur.chunk.injEq] at hj
+        subst hj
+        exact ⟨_, rfl, hm.dvd_of_16 (resetPos_pos16 hc hw)⟩
+  | unallocated =>
+    simp only [hcur]
+    exact ⟨h.chunks, hm, fun i hi => by cases hi⟩
+  | claimed =>
+    simp only [hcur]
+    exact ⟨h.chunks, hm, fun i hi => by cases hi⟩
+
+theorem resetToStart_shape_min (s : State) (m : Nat) : SameShape s (resetToStart cfg { s with minAlign := m }) :=
+  resetToStart_shape (cfg := cfg) { s with minAlign := m }
+
+/-- `reset_to` executed by a handle whose minimum alignment is `m` (the arena itself may currently be in a
+    region with another minimum alignment) -/
+theorem resetTo_ok_min (hc : CfgOK cfg) (h : GeomInv cfg s) {m : Nat} (hm : MinAlignOK m) {cp : Checkpoint}
+    (hcp : CheckpointOK cfg s cp) :
+    ∃ s', resetTo cfg { s with minAlign := m } cp = .ok s' ∧ GeomInv cfg s' ∧ SameShape s s' ∧ s'.minAlign = m ∧
+      s'.resps = s.resps ∧
+      (∀ i, cp.cur = .chunk i → s'.cur = .chunk i ∧ curPos cfg s' = alignPos cfg.up m cp.addr) := by
+  unfold resetTo
+  unfold CheckpointOK at hcp
+  cases hk : cp.cur with
+  | unallocated =>
+    rw [hk] at hcp
+    simp only [hcp, hk, Bool.not_false, beq_self_eq_true, Bool.and_self, ↓reduceIte]
+    refine ⟨_, rfl, resetToStart_inv_min hc h hm, resetToStart_shape_min s m, ?_, ?_, fun i hi => by cases hi⟩
+    · unfold resetToStart; split
+      · split <;> rfl
+      · rfl
+    · unfold resetToStart; split
+      · split <;> rfl
+      · rfl
+  | claimed => rw [hk] at hcp; exact hcp.elim
+  | chunk i =>
+    rw [hk] at hcp
+    obtain ⟨c, hi, h1, h2⟩ := hcp
+    have hw := h.chunks i c hi
+    have hne : (Cur.chunk i == Cur.unallocated) = false := by simp
+    simp only [hne, Bool.and_false, Bool.false_eq_true, ↓reduceIte, hi, h1, h2, and_self]
+    simp only [r_pure, r_ok_bind, hw.align_pos_eq hc hm h2, liftM_ok]
+    have hmem := hw.alignPos_mem hc hm h1 h2
+    refine ⟨_, rfl, h.setPosCurMin hm hi hmem.1 hmem.2 (alignPos_dvd _ _ _), setPos_shape s _ _, rfl, rfl, ?_⟩
+    intro j hj
+    simp only [Cur.chunk.injEq] at hj
+    subst hj
+    refine ⟨rfl, ?_⟩
+    unfold curPos
+    have : (Arena.setPos { s with minAlign := m } i (alignPos cfg.up m cp.addr)).chunks[i]? =
+        some { c with pos := alignPos cfg.up m cp.addr } := by
+      show (Arena.setPos s i _).chunks[i]? = _
+      rw [setPos_getElem?, if_pos rfl, hi]; rfl
+    simp only [this]
+
 /-! ## align_to, BumpAlignGuard::drop -/
 
 /-- `alignTo` to a supported alignment never faults; afterwards the position is aligned for the old
